@@ -85,12 +85,13 @@ class Fault(object):
     | 'lose-response' | 'raise-after' (run the method, then answer with an error);
     delay: virtual seconds for 'delay'."""
 
-    def __init__(self, action, method=None, nth=None, delay=0.0, target=None, after_nth=None):
+    def __init__(self, action, method=None, nth=None, delay=0.0, target=None, after_nth=None, delay_step=0.0):
         self.action = action
         self.method = method
         self.nth = nth
         self.after_nth = after_nth  # fire on every matching call after the nth
         self.delay = delay
+        self.delay_step = delay_step  # each further firing answers this much later (staggered answers)
         self.target = target        # None | 'root' | 'bucket'
         self.seen = 0
         self.fired = 0
@@ -106,6 +107,9 @@ class Fault(object):
         if self.after_nth is not None:
             return self.seen > self.after_nth
         return self.nth is None or self.seen == self.nth
+
+    def current_delay(self):
+        return self.delay + self.delay_step * max(0, self.fired - 1)
 
     def describe(self):
         return {"action": self.action, "method": self.method, "nth": self.nth,
@@ -199,7 +203,8 @@ class Wire(object):
             action, fault = vs.pick_fault(methname, self.is_root)
             if action == "raise":
                 rec["result"] = "injected-raise"
-                return respond(Failure(RemoteException(Failure(InjectedError("injected failure in %s" % methname)))))
+                return respond(Failure(RemoteException(Failure(InjectedError("injected failure in %s" % methname)))),
+                               delay=fault.current_delay())
             if action == "hang":
                 rec["result"] = "injected-hang"
                 vs.hung.append((callno, methname))
@@ -219,7 +224,7 @@ class Wire(object):
                 rec["exc"] = f
                 if grid.post_delivery is not None:
                     grid.post_delivery(vs, methname, args, rec)
-                return respond(Failure(RemoteException(f)), delay=fault.delay if action == "delay" else 0.0)
+                return respond(Failure(RemoteException(f)), delay=fault.current_delay() if action == "delay" else 0.0)
             if isinstance(res, defer.Deferred):
                 box = []
                 res.addBoth(box.append)
@@ -239,7 +244,7 @@ class Wire(object):
                 return respond(Failure(RemoteException(Failure(InjectedError("injected failure after %s" % methname)))))
             if grid.mutate_response is not None:
                 res = grid.mutate_response(vs, methname, args, res, self.original)
-            respond(self._wrap_result(_copy(res)), delay=fault.delay if action == "delay" else 0.0)
+            respond(self._wrap_result(_copy(res)), delay=fault.current_delay() if action == "delay" else 0.0)
 
         sched.post(vs.name, "req", label, deliver_req)
         return d
